@@ -449,7 +449,7 @@ def _c07(m, tier, seed, rundir, extra):
     procs = 4 if tier == 'quick' else 12
     tables = []
     for p in range(procs):
-        res = core.run_sharded('c07', ['--seed', seed, '--count', count], SH, os.path.join(rundir, f'proc{p}'))
+        res = core.run_sharded('c07', ['--seed', seed, '--count', count] + (['--reverse', '1'] if p % 2 else []), SH, os.path.join(rundir, f'proc{p}'))
         per_shard = []
         for rc, summ, err in res:
             if summ is None:
@@ -486,7 +486,7 @@ PLANS['C07'] = {
     'level': 'exploration',
     'rule': ('each logical tree (generated, plus instances carrying several spellings of one logical property with different values) is built 6 ways (nested builders, chosen referents, shuffled '
              'property insertion order, reversed order + capacity, incremental inserts, flat insert + transfer_within) and serialized as binary x {lz4,none,zstd} and XML: all outputs byte-identical; '
-             'the whole workload runs in P separate processes (other hash seeds) and their (case, format) -> output hashes are joined offline and must agree; '
+             'the whole workload runs in P separate processes (other hash seeds; every other one runs the cases in the opposite order, so state kept between calls differs too) and their (case, format) -> output hashes are joined offline and must agree; '
              'fixed point: b2 = save(load(b1)), b3 = save(load(b2)) must be byte-identical; non-trivial = tree with >=3 nodes or >=2 properties; distinct = digest of the tree shape'),
     'floor': {'quick': 1500, 'thorough': 30000},
     'assumptions': ['process-level hash-seed diversity comes from ahash runtime keys: P processes sample P seeds, not all'],
